@@ -49,9 +49,12 @@ Definition qt_end (t : qtank) : qtank :=
       let '(l2, s', _) := l_update qts qt_port l1 (qt_s t) in
       mkQT (mkQS (s_cap s') (s_sto s') (s_sto s') (s_act s')) l2
   | _ =>
+      (* the decay reported for the timestep comes off the declared contents, the queue moves on (and decays for the
+         timestep to come), and what has completed its travel time is released, as in the plain tank *)
       let s := qt_s t in
       let sto := vsub (s_sto s) (l_decayed (qt_l t)) in
-      mkQT (mkQS (s_cap s) sto sto (s_act s)) (l_end (qt_l t))
+      let '(l2, s', _) := l_update qts qt_port (l_end (qt_l t)) (mkQS (s_cap s) sto sto (s_act s)) in
+      mkQT s' l2
   end.
 Definition qt_ds (t : qtank) : vqip := vds (s_sto (qt_s t)) (s_sto_ (qt_s t)).
 
